@@ -308,6 +308,8 @@ def cli_output(F, rep):
         if defaults and pdf_writes:
             pdf_fn = (main, defaults, pdf_writes)
             break
+    if pdf_fn is None and _value_defaulted_pdf(F, rep, bodies, builds_default):
+        return
     if pdf_fn is None:
         rep.unresolved("R4", "pdf-default-path", "default PDF path construction or its write not found in the CLI crate")
         return
@@ -339,6 +341,76 @@ def cli_output(F, rep):
             else:
                 why = "a path from the default-path construction reaches the write without passing exists()"
         rep.ob("R4", "main:pdf-overwrite-guard", ok, why, main.loc(wt["sp"]), key="R4:main:pdf-overwrite-guard")
+
+
+def _value_defaulted_pdf(F, rep, bodies, builds_default):
+    """third spelling of the default path: `let path = output.clone().unwrap_or_else(|| default_path())` — the path is the
+    default exactly when the Option is None. Considering only the runs on which it IS None (edges taken when
+    `opt.is_some()` / `!opt.is_none()` removed), every path to the write must pass the exists() test, and the write must be
+    unreachable from its true edge. Returns True when this spelling was found (and an obligation recorded)."""
+    def strip(x):
+        while isinstance(x, tuple) and x and x[0] == "call" and parse_callee(x[1])[2] in ("clone", "as_ref", "as_deref", "cloned", "copied", "to_owned", "map", "deref") and x[2]:
+            x = x[2][0]
+        return x
+    for main in bodies:
+        tb = Terms(F, main, inline_depth=0)
+        fam = {main.id} | set(F.children(main.id))
+        for wi, wt in [(i, t) for i, t in main.calls() if t["callee"] == "std::fs::write"]:
+            P_ = tb.operand(wt["args"][0])
+            src = None
+            for x in subterms(P_):
+                if isinstance(x, tuple) and x and x[0] == "call" and parse_callee(x[1])[2] in ("unwrap_or_else", "unwrap_or", "map_or_else", "map_or") and len(x[2]) >= 2:
+                    dflt = x[2][1]
+                    builds = False
+                    if isinstance(dflt, tuple) and dflt and dflt[0] == "closure" and dflt[1] in F.bodies:
+                        cb = F.bodies[dflt[1]]
+                        builds = bool(builds_default(cb)) or any(
+                            F.bodies.get(u["callee"]) is not None and F.bodies[u["callee"]].crate == "cgt_tool" and "PathBuf" in F.bodies[u["callee"]].ret
+                            and builds_default(F.bodies[u["callee"]]) for _, u in cb.calls())
+                    elif isinstance(dflt, tuple) and dflt and dflt[0] == "call" and dflt[1] in F.bodies:
+                        builds = bool(builds_default(F.bodies[dflt[1]]))
+                    if builds:
+                        src = strip(x[2][0])
+            if src is None:
+                continue
+            # edges that are only taken when the Option is Some
+            some_edges = set()
+            for s_, t in main.terms_of_kind("switch"):
+                cnd = tb.operand(t["discr"])
+                neg = False
+                if isinstance(cnd, tuple) and cnd and cnd[0] == "un" and cnd[1] == "Not":
+                    cnd, neg = cnd[2], True
+                if isinstance(cnd, tuple) and cnd and cnd[0] == "call" and parse_callee(cnd[1])[2] in ("is_none", "is_some") and cnd[2] and strip(cnd[2][0]) == src:
+                    is_none = (parse_callee(cnd[1])[2] == "is_none") != neg
+                    false_t = [x for v, x in t["targets"] if v == "0"]
+                    # is_none true → otherwise edge; the Some-only edge is the other one
+                    if is_none:
+                        some_edges.update((s_, x) for x in false_t)
+                    else:
+                        some_edges.add((s_, t["otherwise"]))
+                if isinstance(cnd, tuple) and cnd and cnd[0] == "discr" and strip(cnd[1]) == src:
+                    some_edges.update((s_, x) for v, x in t["targets"] if v == "1")
+            exists = [(i, t) for i, t in main.calls() if t["callee"] == "std::path::Path::exists"]
+            ok = False
+            why = "no exists() test guards the write of a defaulted PDF path"
+            for ei, et in exists:
+                same = root_of_operand(main, et["args"][0]) and root_of_operand(main, wt["args"][0]) and \
+                    root_of_operand(main, et["args"][0])[0] == root_of_operand(main, wt["args"][0])[0]
+                t2 = main.term(et["target"]) if et.get("target") is not None else {"k": "?"}
+                if not same or t2["k"] != "switch":
+                    continue
+                cut = wi not in main.reach_from(t2["otherwise"])
+                passes = wi not in _reach_avoiding(main, 0, {ei}, some_edges)
+                if cut and passes:
+                    ok = True
+                    why = "when no --output is given the defaulted path is tested with exists() on every path to the write, and an existing file stops it"
+                elif not cut:
+                    why = "the write is still reachable when exists() returns true"
+                else:
+                    why = "with no --output given, a path reaches the write without passing exists()"
+            rep.ob("R4", "main:pdf-overwrite-guard", ok, why, main.loc(wt["sp"]), key="R4:main:pdf-overwrite-guard")
+            return True
+    return False
 
 
 def _option_infeasible_edges(main, tb, start):
